@@ -138,6 +138,25 @@ func (s *c07Space) trigger(pn int) uint8 {
 	if pn >= 1 && pn > s.trk.max() && !s.trk.has(pn-1) && pn-1 > lg && pn-1 >= s.T {
 		return c07TrigReveals
 	}
+	// RFC 9000 13.2.1: "... larger than the highest-numbered ack-eliciting packet that has been
+	// received and there are missing packets between that packet and this packet". The packet
+	// need not be the largest received: a non-ack-eliciting packet above it (which cannot cause
+	// an ACK itself) may have opened the gap. With this packet counted, a number above
+	// everything the last ACK reported and below the largest received is missing, and no
+	// ack-eliciting packet has arrived above the last ACK's largest before (it would have
+	// revealed the gap already).
+	if pn > lg && pn < s.trk.max() {
+		for x := pn - 1; x > lg && x >= s.T; x-- {
+			if !s.trk.has(x) {
+				for y := lg + 1; y < s.U; y++ {
+					if s.pendT[y] != 0 && s.trk[y] {
+						return c07TrigNone // an earlier ack-eliciting packet above the last ACK: already judged there
+					}
+				}
+				return c07TrigReveals
+			}
+		}
+	}
 	return c07TrigNone
 }
 
